@@ -16,9 +16,10 @@ C_Sim   == {NoCount, IntCount(2), IntCount(3), IntCount(12), DecCount(2, 5, 1), 
 
 E_All == 1..118
 Q_None == {}
-Q_Few == {ChargeTok(1), ChargeTok(-2), ChargeTokOne(-1)}
+Q_Few == {ChargeTok(1), ChargeTok(-2), ChargeTokOne(-1), ChargeTokZero("+")}
 Q_All == {ChargeTok(1), ChargeTok(-1), ChargeTok(2), ChargeTok(-2), ChargeTok(3), ChargeTok(-3),
-          ChargeTok(10), ChargeTok(-12), ChargeTokOne(1), ChargeTokOne(-1)}
+          ChargeTok(10), ChargeTok(-12), ChargeTokOne(1), ChargeTokOne(-1),
+          ChargeTokZero("+"), ChargeTokZero("-")}
 P_All == AllPrefixes
 \* prefixes that contain one another (eta in beta/zeta/theta), an irregular LaTeX form (omicron) and the radical dot
 P_Few == {"alpha-", "beta-", "eta-", "theta-", "omicron-", "."}
